@@ -18,7 +18,7 @@ from . import c02, c06, c07, c11
 TREE = {"R/a.txt": 1, "R/d/b c.txt": 2, "R/d/e/c.txt": 3, "R/N/a.txt": 4, "R/N/sub/n.txt": 5, "R/N_proxy/p.txt": 6, "R/skip.tmp": 7,
         "R/d/keep.tmp": 8}
 PATTERNS = ["*.tmp", "!keep.tmp"]  # order matters: the second pattern re-includes what the first one excludes
-MUTATIONS = {"quick": ["none", "alter-top", "alter-nested", "delete", "add", "rename-top", "rename-nested"],
+MUTATIONS = {"quick": ["none", "alter-top", "alter-nested", "alter-kept", "delete", "add", "rename-top", "rename-nested"],
              "thorough": ["none", "alter-top", "alter-nested", "delete", "add", "rename-top", "rename-nested", "restore", "alter-kept"],
              "three": ["none", "alter-top", "delete", "rename-top", "rename-nested"]}
 COMMANDS = {"quick": ["create", "create-n", "create-dr", "create-i", "create-fmt2", "create-sf-top", "create-sf-nested", "verify", "diff", "flatten"],
